@@ -67,10 +67,12 @@ def is_ascii_digit(e):
 POW10 = [10 ** k for k in range(40)]
 
 
-def ndigits_term(x, maxd=19):
+def ndigits_term(x, maxd=19, E=None):
     """number of decimal digits of x >= 0 (closed form up to maxd digits, uninterpreted above)"""
     big = z3.Function('NDIG', z3.IntSort(), z3.IntSort())
     r = big(x)
+    if E is not None:
+        E.fact(r > maxd)
     for d in range(maxd, 0, -1):
         r = z3.If(x < POW10[d], d, r)
     return r
@@ -102,21 +104,30 @@ def str_of_int(E, v):
         s = seq_items('str', [z3.simplify(48 + t)])
         s.tag = ('dec', t)
         return s
-    neg = t < 0
-    a = z3.If(neg, -t, t)
-    nd = ndigits_term(a)
-    n = z3.If(neg, nd + 1, nd)
+    nonneg = E.decide(t >= 0)
+    if nonneg is True:
+        neg = z3.BoolVal(False)
+        a = t
+        nd = ndigits_term(a, E=E)
+        n = nd
+    else:
+        neg = t < 0
+        a = z3.If(neg, -t, t)
+        nd = ndigits_term(a, E=E)
+        n = z3.If(neg, nd + 1, nd)
     other = z3.Function('DECDIG', z3.IntSort(), z3.IntSort(), z3.IntSort())
 
     def at(i, a=a, nd=nd, neg=neg):
         ii = I(i)
-        j = z3.If(neg, ii - 1, ii)        # digit position from the left
+        j = ii if z3.is_false(neg) else z3.If(neg, ii - 1, ii)        # digit position from the left
         # digit = (a div 10^(nd-1-j)) mod 10 ; closed form for nd<=19 via nested If on (nd-1-j)
         e = nd - 1 - j
         r = other(a, e)
         for k in range(18, -1, -1):
             r = z3.If(e == k, (a / POW10[k]) % 10, r)
         d = 48 + r
+        if z3.is_false(neg):
+            return d
         return z3.If(z3.And(neg, ii == 0), 45, d)
     s = VSeq('str', n, at, tag=('dec', t))
     return s
